@@ -35,9 +35,9 @@ theorem closed_covers_reachable (hw : HwFacts) (s : List String) (h : closedSet 
     simpa using this _ hb
 
 /-- hence: if the decider accepts, every needed module is defined in a file that both manifests list,
-    and every listed file exists or is a generated file name -/
+    and every listed file exists or is the file a shipped example named like its target generates -/
 theorem holds_spec (mf : ManifestFacts) (hw : HwFacts) (h : holds mf hw = true) :
-    (∀ e ∈ mf.bender ++ mf.core, e.path ∈ mf.tracked ∨ e.path ∈ generatedNames mf) ∧
+    (∀ e ∈ mf.bender ++ mf.core, e.path ∈ mf.tracked ∨ generatedFor mf e = true) ∧
     (∀ n, Needed hw n → ∃ f, fileOf hw n = some f ∧ (∃ e ∈ mf.bender, e.path = f) ∧ (∃ e ∈ mf.core, e.path = f)) := by
   unfold holds at h
   simp only [Bool.and_eq_true] at h
